@@ -122,6 +122,8 @@ fn expr_candidates(x: &X) -> Vec<X> {
         let mut c = 0;
         if let Some(n) = subst(x, idx, &mut c, &|node| match node {
             X::Vec(v) if !v.is_empty() => Some(X::Vec(v[1..].to_vec())),
+            X::Chain(op, v) if v.len() > 1 => Some(X::Chain(*op, v[..v.len() - 1].to_vec())),
+            X::Tower(op, n, a) if *n > 0 => Some(X::Tower(*op, n / 2, a.clone())),
             X::Map(m) if m.len() > 1 => Some(X::Map(m[1..].to_vec())),
             _ => None,
         }) {
